@@ -183,7 +183,8 @@ def convert_version(
     ConvertVersionPass(target_version=target_version, fallback=fallback)(model)
 
     if model_proto is not None:
-        # Update the model proto in-place
-        model_proto.graph.Clear()
-        del model_proto.functions[:]
-        model_proto.graph.CopyFrom(ir.to_proto(model.graph))
+        # Update the model proto in-place. The whole model is copied back, not only the graph:
+        # the conversion also changes the opset imports (and the functions).
+        new_proto = ir.to_proto(model)
+        model_proto.Clear()
+        model_proto.CopyFrom(new_proto)
